@@ -673,11 +673,20 @@ func (x *FnIndex) GuardsOf(b *ssa.BasicBlock) []Guard {
 		if d.Succs[0] == d.Succs[1] {
 			continue
 		}
+		// `!c` is reported as c with the opposite outcome
+		cond, flip := iff.Cond, false
+		for i := 0; i < 4; i++ {
+			u, ok := x.Origin(cond).(*ssa.UnOp)
+			if !ok || u.Op != token.NOT {
+				break
+			}
+			cond, flip = u.X, !flip
+		}
 		if x.edgeDominated(d, 0)[b] {
-			out = append(out, Guard{iff, iff.Cond, true})
+			out = append(out, Guard{iff, cond, !flip})
 		}
 		if x.edgeDominated(d, 1)[b] {
-			out = append(out, Guard{iff, iff.Cond, false})
+			out = append(out, Guard{iff, cond, flip})
 		}
 	}
 	return out
